@@ -202,6 +202,13 @@ class LoggedProblem(Problem):
                 raise self.fail_exc(*self.fail_args)
             raise self.fail_exc("injected failure at evaluation %d" % self.calls)
         y = tuple(float(v) for v in point.floatVariables)
+        nf = self.style.get("nonfinite")
+        if nf and (self.calls == nf["at"] or (nf.get("from") and self.calls >= nf["at"])):
+            # the objective has no finite value here (division by zero, log of a negative number, overflow ...): it
+            # hands back NaN or an infinity instead of raising; not logged, it is not a usable evaluation
+            bad = {"nan": float("nan"), "inf": float("inf"), "-inf": float("-inf")}[nf["value"]]
+            functionValue.value = np.float64(bad) if self.style.get("valtype") == "np" else bad
+            return functionValue
         val = self.value_at(y)
         self.log.append((self.clock[0], y, val))
         if self.style.get("valtype") == "np":
